@@ -305,3 +305,99 @@ def place_str(body, p):
         else:
             s = "%s.<%s>" % (s, e["k"])
     return s
+
+
+# ---------------------------------------------------------------------- A2: liveness
+def _place_uses(p, uses):
+    uses.add(p["l"])
+    for e in p["p"]:
+        if e["k"] == "index":
+            uses.add(e["l"])
+
+
+def _operand_uses(o, uses):
+    if o["k"] in ("copy", "move"):
+        _place_uses(o["place"], uses)
+
+
+def stmt_uses_defs(st):
+    uses, defs = set(), set()
+    if st["k"] == "assign":
+        rv = st["rv"]
+        k = rv["k"]
+        if k in ("ref", "raw_ptr", "discriminant"):
+            _place_uses(rv["place"], uses)
+        else:
+            for o in _operands_of_rvalue(rv):
+                _operand_uses(o, uses)
+        p = st["place"]
+        if p["p"]:
+            # partial write: needs the base (a use when it goes through a deref), not a kill
+            if any(e["k"] == "deref" for e in p["p"]):
+                uses.add(p["l"])
+            for e in p["p"]:
+                if e["k"] == "index":
+                    uses.add(e["l"])
+        else:
+            defs.add(p["l"])
+    elif st["k"] == "set_discriminant":
+        pass
+    elif st["k"] == "storage_dead":
+        defs.add(st["l"])
+    return uses, defs
+
+
+def term_uses_defs(t):
+    uses, defs = set(), set()
+    k = t["k"]
+    if k == "call":
+        if t["func"].get("k") in ("copy", "move"):
+            _operand_uses(t["func"], uses)
+        for a in t["args"]:
+            _operand_uses(a, uses)
+        if not t["dest"]["p"]:
+            defs.add(t["dest"]["l"])
+        else:
+            uses.add(t["dest"]["l"])
+    elif k == "switch":
+        _operand_uses(t["discr"], uses)
+    elif k == "assert":
+        _operand_uses(t["cond"], uses)
+        for o in t.get("msg_ops", []):
+            _operand_uses(o, uses)
+    elif k == "return":
+        uses.add(0)
+    # drop is deliberately not a use: dropping a value does not observe it
+    return uses, defs
+
+
+def liveness(body):
+    """Backward may-liveness of locals over the non-cleanup CFG. Returns (live_in, live_out) per block.
+    Taking a reference counts as a use; drops do not."""
+    n = len(body.blocks)
+    gen = [set() for _ in range(n)]
+    kill = [set() for _ in range(n)]
+    for i, bl in enumerate(body.blocks):
+        g, k = set(), set()
+        items = [stmt_uses_defs(s) for s in bl["stmts"]] + [term_uses_defs(bl["term"])]
+        for uses, defs in reversed(items):
+            g -= defs
+            k |= defs
+            g |= uses
+        gen[i], kill[i] = g, k
+    live_in = [set() for _ in range(n)]
+    live_out = [set() for _ in range(n)]
+    changed = True
+    while changed:
+        changed = False
+        for i in reversed(range(n)):
+            if body.blocks[i]["cleanup"]:
+                continue
+            out = set()
+            for s in body.succs(i):
+                out |= live_in[s]
+            inn = gen[i] | (out - kill[i])
+            if out != live_out[i] or inn != live_in[i]:
+                live_out[i], live_in[i] = out, inn
+                changed = True
+    return live_in, live_out
